@@ -51,6 +51,7 @@ def check_rep(h: Harness, name, rep, spec, b, shared, rng, model_line):
             continue
         first_calls = shared.calls - before
         res = ["ok", gram.canon(p, b)] if st == "ok" else ["err", p]
+        text = repr(p) if st == "ok" else None    # (float values, which the canonical form hides, are compared too)
         nontrivial = sx(res).count("(n ") >= 2
         replay = [sx(line_spec), name, sx(dna_before)]
         if name != "DynamicSGE" and first_calls != 0:
@@ -66,9 +67,10 @@ def check_rep(h: Harness, name, rep, spec, b, shared, rng, model_line):
             before = shared.calls
             st2, p2 = safe(lambda: rep.genotype_to_phenotype(geno))
             res2 = ["ok", gram.canon(p2, b)] if st2 == "ok" else ["err", p2]
-            if sx(res2) != sx(res):
+            if sx(res2) != sx(res) or (st2 == "ok" and text is not None and repr(p2) != text):
                 h.fail(site, "same-genotype-different-program",
-                       f"mapping #{k + 2} of the same genotype gave {sx(res2)[:160]} instead of {sx(res)[:160]}", replay)
+                       f"mapping #{k + 2} of the same genotype gave {(sx(res2) if sx(res2) != sx(res) else repr(p2))[:160]} instead of "
+                       f"{(sx(res) if sx(res2) != sx(res) else text)[:160]}", replay)
                 break
             if shared.calls != before:
                 h.fail(site, "mapping-draws-from-shared-source",
@@ -156,11 +158,20 @@ def run(h: Harness):
     rng = h.rng
     decider_state_scenario(h, rng)
     persistent_handler_scenario(h, rng)
-    for gi in range(h.n(40, 600)):
+    C = gram.ClassSpec
+    # fixed grammars with PLAIN float / str fields (drawn through the derived primitives of the gene-backed sources)
+    fixed = [gram.Spec([C("A0", True, None), C("L", False, 0, [("x", "float")]), C("N", False, 0, [("l", ("cls", 0)), ("r", ("cls", 0))])], 0, [1, 2]),
+             gram.Spec([C("A0", True, None), C("M", False, 0, [("y", "float"), ("k", "int"), ("z", "float")]), C("W", False, 0, [("e", ("cls", 0)), ("f", "float")])], 0, [1, 2])]
+    for gi in range(3 * len(fixed) + h.n(40, 600)):
         refined = rng.random() < 0.5
         opts = {"ann": refined, "float": rng.random() < 0.3, "str": False}
         backtracking = refined and rng.random() < 0.25
-        if backtracking:
+        if gi < 3 * len(fixed):
+            import copy
+            spec = copy.deepcopy(fixed[gi % len(fixed)])
+            refined = True      # (keep the fields as declared)
+            h.count("plain-float-grammar")
+        elif backtracking:
             # a production that raises SynthesisException in some contexts (and is then abandoned for another one)
             import props.c10 as c10
             spec = c10.backtracking_spec(rng)
@@ -191,6 +202,42 @@ def run(h: Harness):
         mind = g.get_min_tree_depth()
         if mind >= 1000000:
             continue
+        if refined and rng.random() < 0.35:
+            # the grammar object has a history: the classes were used by a first grammar, then refinements were re-declared
+            # in place and the grammar extracted again -- mapping depends on genotype and (this) grammar alone
+            changed = False
+            synth.create(b, "grow", mind + 2, [rng.randrange(0, 1000) for _ in range(64)])
+            for ci, c in enumerate(spec.classes):
+                for fn, ft in list(c.fields):
+                    if isinstance(ft, tuple) and ft[0] == "ann" and ft[1] == "int" and ft[2][0] == "intRange":
+                        gram.retarget(b, ci, fn, ("ann", "int", ("intRange", ft[2][1] + 100, ft[2][2] + 150)))
+                        changed = True
+            if changed:
+                try:
+                    g = b.extract()
+                except Exception:  # noqa: BLE001
+                    continue
+                h.count("retargeted-grammar")
+                # the same genes mapped under an IDENTICAL grammar without a history (freshly built classes) give the same program
+                b2 = gram.build(spec)
+                try:
+                    g2 = b2.extract()
+                except Exception:  # noqa: BLE001
+                    g2 = None
+                if g2 is not None:
+                    for _ in range(6):
+                        dna = [rng.randrange(0, 10**6) for _ in range(32)]
+                        outs = []
+                        for (bb, gg) in ((b, g), (b2, g2)):
+                            src0 = NativeRandomSource(1)
+                            rep0 = GE(gg, synth.make_decider("grow", mind + 2, src0, gg), gene_length=32)
+                            st, p = safe(lambda: rep0.genotype_to_phenotype(type(rep0.create_genotype(src0))(dna=list(dna))))
+                            outs.append(sx(["ok", gram.canon(p, bb)] if st == "ok" else ["err", p]))
+                        if outs[0] != outs[1]:
+                            h.fail("GE.genotype_to_phenotype", "same-genotype-different-program",
+                                   f"genes {dna[:6]}... map to {outs[0][:120]} under the re-extracted grammar and to {outs[1][:120]} under an identical "
+                                   f"grammar built from fresh classes", [sx(gram.spec_sx(spec)), dna])
+                            break
         h.count("refined-grammar" if refined else "unrefined-grammar")
         line_spec = gram.spec_sx(spec)
         d = mind + rng.choice([1, 2, 3, 4])
